@@ -2,7 +2,7 @@
 SPECIFICATION Spec
 CONSTANTS
   N = 3
-  Suite = "c18s"
+  Suite = "c18l"
   Verify = TRUE
   CrcModel = "atomic"
   IgnoreSigpipe = TRUE
